@@ -123,6 +123,11 @@ func (c *ChainIndex[T]) UpdateLastAccepted(ctx context.Context, blk T) error {
 	}
 
 	deleteBlkID, err := c.GetBlockIDAtHeight(ctx, expiryHeight)
+	if errors.Is(err, database.ErrNotFound) {
+		// The block at the expiry height was never stored (e.g. after state
+		// sync or historical backfill), so there is nothing to prune.
+		return batch.Write()
+	}
 	if err != nil {
 		return err
 	}
